@@ -105,7 +105,23 @@ def check_anchors(ctx, meta):
     return sorted(a for a in anchors if a in lock and lock[a] != now[a])
 
 
+def _normal_signals():
+    """A check started as a background job of a non-interactive shell inherits SIGINT/SIGQUIT = SIG_IGN, and an ignored
+    signal stays ignored across exec: a cmd-action `kill -INT $$` would then do nothing and the C17/C05/C19 cases about
+    commands killed by a signal would misjudge the code.  Give the harness (and so every process it starts) the default
+    dispositions."""
+    import signal
+    for name in ('SIGINT', 'SIGQUIT', 'SIGTERM', 'SIGHUP', 'SIGPIPE'):
+        sig = getattr(signal, name, None)
+        try:
+            if sig is not None and signal.getsignal(sig) == signal.SIG_IGN and name != 'SIGPIPE':
+                signal.signal(sig, signal.default_int_handler if name == 'SIGINT' else signal.SIG_DFL)
+        except (ValueError, OSError):
+            pass
+
+
 def main(argv):
+    _normal_signals()
     if len(argv) < 3:
         print(__doc__)
         return 2
